@@ -352,7 +352,7 @@ func runC03(c *Ctx) error {
 	// killed by it still yields the replay
 	deep := []struct {
 		name, pre, open, mid, close string
-		n                            int
+		n                           int
 	}{
 		{"parentheses", "x := ", "(", "1", ")", 3000000}, {"unary minus", "x := ", "-(", "1", ")", 1000000},
 		{"operator chain", "x := 1", " + 1", "", "", 400000}, {"selector chain", "type T struct { n *T }\nt := &T{}\nx := t", ".n", "", "", 300000},
